@@ -1,2 +1,300 @@
-From Coq Require Import ZArith List Bool Lia.
+(* C17 — proofs.  DINO: invariants of _mask_block / _generate_mask / collate.
+   I-JEPA: rectangles, index lists, constrained sampling under the premise, truncation, row layout. *)
+From Coq Require Import ZArith List Bool Lia ZifyBool Permutation Arith.
+Import ListNotations.
 From KD Require Import C17.Model C17.Spec.
+Open Scope Z_scope.
+
+Ltac splits := repeat match goal with |- _ /\ _ => split end.
+
+(* ======================================================================== *)
+(* generic list facts                                                       *)
+(* ======================================================================== *)
+Lemma len_nonneg {A} (l : list A) : 0 <= len l.
+Proof. unfold len. lia. Qed.
+
+Lemma len_cons {A} (x : A) l : len (x :: l) = 1 + len l.
+Proof. unfold len. simpl length. lia. Qed.
+
+Lemma len_app {A} (a b : list A) : len (a ++ b) = len a + len b.
+Proof. unfold len. rewrite app_length. lia. Qed.
+
+Lemma len_nil {A} : len (@nil A) = 0.
+Proof. reflexivity. Qed.
+
+Lemma map_nth_seq {A} (l : list A) d : map (fun k => nth k l d) (seq 0 (length l)) = l.
+Proof.
+  induction l as [|x l IH]; simpl; [reflexivity|].
+  f_equal. rewrite <- seq_shift, map_map. exact IH.
+Qed.
+
+Lemma filter_perm_length {A} (f : A -> bool) l l' :
+  Permutation l l' -> length (filter f l) = length (filter f l').
+Proof.
+  induction 1; simpl; try congruence.
+  - destruct (f x); simpl; congruence.
+  - destruct (f x), (f y); simpl; congruence.
+Qed.
+
+Lemma filter_repeat_false {A} (f : A -> bool) x n : f x = false -> filter f (repeat x n) = [].
+Proof. intros H. induction n; simpl; [reflexivity|]. rewrite H. exact IHn. Qed.
+
+Lemma filter_length_le {A} (f : A -> bool) l : (length (filter f l) <= length l)%nat.
+Proof. induction l; simpl; [lia|]. destruct (f a); simpl; lia. Qed.
+
+Lemma Forall_repeat {A} (P : A -> Prop) x n : P x -> Forall P (repeat x n).
+Proof. intros H. induction n; simpl; constructor; assumption. Qed.
+
+(* ======================================================================== *)
+(* DINO                                                                     *)
+(* ======================================================================== *)
+Lemma count_true_cons b r : count_true (b :: r) = (if b then 1 else 0) + count_true r.
+Proof. reflexivity. Qed.
+
+Lemma popcount_cons r m : popcount (r :: m) = count_true r + popcount m.
+Proof. reflexivity. Qed.
+
+Lemma count_true_nonneg r : 0 <= count_true r.
+Proof. induction r as [|b r IH]; [simpl; lia|]. rewrite count_true_cons. destruct b; lia. Qed.
+
+Lemma popcount_nonneg m : 0 <= popcount m.
+Proof. induction m as [|r m IH]; [simpl; lia|]. rewrite popcount_cons. pose proof (count_true_nonneg r). lia. Qed.
+
+Lemma count_true_repeat_false n : count_true (repeat false n) = 0.
+Proof. induction n; [reflexivity|]. simpl repeat. rewrite count_true_cons. exact IHn. Qed.
+
+Lemma popcount_zero_rows r n : count_true r = 0 -> popcount (repeat r n) = 0.
+Proof. intros H. induction n; [reflexivity|]. simpl repeat. rewrite popcount_cons. lia. Qed.
+
+Lemma popcount_zero_mask c : popcount (zero_mask c) = 0.
+Proof. unfold zero_mask. apply popcount_zero_rows, count_true_repeat_false. Qed.
+
+Lemma well_shaped_zero_mask c : 0 <= dH c -> 0 <= dW c -> well_shaped (dH c) (dW c) (zero_mask c).
+Proof.
+  intros HH HW. unfold well_shaped, zero_mask, len. split.
+  - rewrite repeat_length. lia.
+  - apply Forall_repeat. rewrite repeat_length. lia.
+Qed.
+
+(* one row of the update loop *)
+Lemma row_set_spec : forall r j l rt r' d, row_set j l rt r = (r', d) ->
+  count_true r' = count_true r + d /\ length r' = length r /\ 0 <= d /\
+  d + row_cnt j l rt r <= Z.max 0 (rt - Z.max l j).
+Proof.
+  induction r as [|b r IH]; intros j l rt r' d H; simpl in H.
+  - inversion H; subst. simpl. lia.
+  - destruct (row_set (j + 1) l rt r) as [r'' d'] eqn:E.
+    destruct (IH _ _ _ _ _ E) as (I1 & I2 & I3 & I4).
+    simpl row_cnt. unfold in_rng in *.
+    destruct ((l <=? j) && (j <? rt)) eqn:R; inversion H; subst; rewrite !count_true_cons; simpl length;
+      destruct b; simpl andb; splits; try lia.
+Qed.
+
+Definition wbound (l rt : Z) : Z := Z.max 0 (rt - Z.max l 0).
+
+Lemma blk_set_spec : forall m i top bot l rt m' d, blk_set i top bot l rt m = (m', d) ->
+  popcount m' = popcount m + d /\ length m' = length m /\ 0 <= d /\
+  (forall W, Forall (fun r => len r = W) m -> Forall (fun r => len r = W) m') /\
+  d + blk_cnt i top bot l rt m <= wbound l rt * Z.max 0 (bot - Z.max top i).
+Proof.
+  induction m as [|r m IH]; intros i top bot l rt m' d H; simpl in H.
+  - inversion H; subst. simpl. unfold wbound. splits; try lia; try nia. intros; constructor.
+  - destruct (blk_set (i + 1) top bot l rt m) as [m'' d'] eqn:E.
+    destruct (IH _ _ _ _ _ _ _ E) as (I1 & I2 & I3 & I4 & I5).
+    simpl blk_cnt. unfold in_rng in *.
+    assert (0 <= wbound l rt) by (unfold wbound; lia).
+    destruct ((top <=? i) && (i <? bot)) eqn:R.
+    + destruct (row_set 0 l rt r) as [r' dr] eqn:Er. inversion H; subst.
+      destruct (row_set_spec _ _ _ _ _ _ Er) as (J1 & J2 & J3 & J4).
+      rewrite !popcount_cons. simpl length. splits; try lia.
+      * intros W HW. inversion HW; subst. constructor; [unfold len in *; lia | auto].
+      * fold (wbound l rt) in J4.
+        replace (Z.max 0 (bot - Z.max top i)) with (Z.max 0 (bot - Z.max top (i + 1)) + 1) by lia.
+        lia.
+    + inversion H; subst. rewrite !popcount_cons. simpl length. splits; try lia.
+      all: try (intros W HW; inversion HW; subst; constructor; auto).
+      all: try (assert (Z.max 0 (bot - Z.max top (i + 1)) <= Z.max 0 (bot - Z.max top i)) by lia; nia).
+Qed.
+
+Definition shaped (c : dcfg) (m : mask) : Prop := well_shaped (dH c) (dW c) m.
+
+Lemma Forall_tail4 {A} (P : A -> Prop) a b c d l : Forall P (a :: b :: c :: d :: l) ->
+  P a /\ P b /\ P c /\ P d /\ Forall P l.
+Proof. intros H. repeat (inversion H as [|? ? ? H']; subst; clear H; rename H' into H). auto. Qed.
+
+(* _mask_block: the mask gains exactly delta cells, 0 <= delta <= remaining budget *)
+Lemma mask_block_spec : forall tries c m rem tr m' d tr',
+  Forall draw_ok tr -> 0 <= rem -> mask_block tries c m rem tr = Ok (m', d, tr') ->
+  popcount m' = popcount m + d /\ 0 <= d <= rem /\ (shaped c m -> shaped c m') /\ Forall draw_ok tr'.
+Proof.
+  induction tries as [|t IH]; intros c m rem tr m' d tr' Htr Hrem H; simpl in H.
+  - inversion H; subst. splits; auto; try lia.
+  - destruct tr as [|[lo hi v| | | |] tr]; try discriminate.
+    destruct tr as [|[lo2 hi2 v2| | | |] tr]; try discriminate.
+    destruct tr as [|[|h| | |] tr]; try discriminate.
+    destruct tr as [|[|w| | |] tr]; try discriminate.
+    destruct (Forall_tail4 _ _ _ _ _ _ Htr) as (_ & _ & Hh & Hw & Htr1). simpl in Hh, Hw.
+    destruct (negb _); try discriminate.
+    destruct ((dW c <=? w) || (dH c <=? h)) eqn:OOB; [eapply IH; eauto|].
+    destruct tr as [|[| |lo1 hi1 top| |] tr]; try discriminate.
+    destruct tr as [|[| |lo3 hi3 lf| |] tr]; try discriminate.
+    destruct (negb _) eqn:Args; try discriminate.
+    inversion Htr1 as [|? ? Ht Htr2]; subst. inversion Htr2 as [|? ? Hl Htr3]; subst. simpl in Ht, Hl.
+    destruct (h * w - blk_cnt 0 top (top + h) lf (lf + w) m =? 0) eqn:Z0; [eapply IH; eauto|].
+    destruct (rem <? h * w - blk_cnt 0 top (top + h) lf (lf + w) m) eqn:Over; [eapply IH; eauto|].
+    destruct (blk_set 0 top (top + h) lf (lf + w) m) as [m1 delta] eqn:Eb.
+    destruct (blk_set_spec _ _ _ _ _ _ _ _ Eb) as (B1 & B2 & B3 & B4 & B5).
+    assert (Hd : delta <= rem).
+    { assert (lo1 = 0 /\ lo3 = 0) as [-> ->] by lia.
+      unfold wbound in B5.
+      replace (Z.max 0 (lf + w - Z.max lf 0)) with w in B5 by lia.
+      replace (Z.max 0 (top + h - Z.max top 0)) with h in B5 by lia.
+      lia. }
+    assert (Hs : shaped c m -> shaped c m1).
+    { unfold shaped, well_shaped, len. intros [S1 S2]. split; [lia|]. apply B4. exact S2. }
+    destruct (0 <? delta) eqn:Pos.
+    + inversion H; subst. splits; auto; try lia.
+    + assert (delta = 0) by lia. subst delta.
+      destruct (IH c m1 rem tr m' d tr' Htr3 Hrem H) as (K1 & K2 & K3 & K4).
+      splits; auto; try lia.
+Qed.
+
+Lemma mask_block_no_fuel : forall tries c m rem tr, mask_block tries c m rem tr <> OutOfFuel.
+Proof.
+  induction tries as [|t IH]; intros c m rem tr; simpl; [discriminate|].
+  repeat (match goal with
+          | |- context [match ?x with _ => _ end] => destruct x; try discriminate; try apply IH
+          end).
+Qed.
+
+(* _generate_mask: popcount = num_masked_patches <= num_masked_patches_total is an invariant *)
+Lemma generate_spec : forall fuel c m num total tr m' num' tr',
+  Forall draw_ok tr -> popcount m = num ->
+  generate fuel c m num total tr = Ok (m', num', tr') ->
+  popcount m' = num' /\ num' <= Z.max num total /\ (shaped c m -> shaped c m') /\ Forall draw_ok tr'.
+Proof.
+  induction fuel as [|f IH]; intros c m num total tr m' num' tr' Htr Hp H; simpl in H;
+    destruct (num <? total) eqn:Lt; try discriminate;
+    try (inversion H; subst; splits; auto; lia).
+  destruct (mask_block 10 c m (total - num) tr) as [[[m1 delta] tr1]| |] eqn:Em; try discriminate.
+  destruct (mask_block_spec _ _ _ _ _ _ _ _ Htr ltac:(lia) Em) as (M1 & M2 & M3 & M4).
+  destruct (delta =? 0) eqn:D0.
+  - inversion H; subst. splits; auto; try lia.
+  - destruct (IH c m1 (num + delta) total tr1 m' num' tr' M4 ltac:(lia) H) as (K1 & K2 & K3 & K4).
+    splits; auto; try lia.
+Qed.
+
+(* the while loop ends: every iteration that does not break adds at least one patch *)
+Lemma generate_no_fuel : forall fuel c m num total tr,
+  total - num <= Z.of_nat fuel -> generate fuel c m num total tr <> OutOfFuel.
+Proof.
+  induction fuel as [|f IH]; intros c m num total tr Hf; simpl;
+    destruct (num <? total) eqn:Lt; try discriminate; try lia.
+  destruct (mask_block 10 c m (total - num) tr) as [[[m1 delta] tr1]| |] eqn:Em; try discriminate.
+  - destruct (delta =? 0) eqn:D0; [discriminate|].
+    apply IH.
+    assert (0 <= delta).
+    { clear - Em. revert Em. generalize 10%nat as t. intros t. revert m tr.
+      induction t as [|t IHt]; intros m tr Em; simpl in Em; [inversion Em; lia|].
+      repeat (match type of Em with
+              | context [match ?x with _ => _ end] => destruct x eqn:?; try discriminate; eauto
+              end).
+      inversion Em; subst. lia. }
+    lia.
+  - exfalso. eapply mask_block_no_fuel; eauto.
+Qed.
+
+Lemma rat_floor_mono (u r : rat) P : 0 <= P -> 0 < snd u -> 0 < snd r -> rat_le u r ->
+  fst u * P / snd u <= fst r * P / snd r.
+Proof.
+  intros HP Hu Hr Hle. unfold rat_le in Hle.
+  apply Z.div_le_lower_bound; [assumption|].
+  pose proof (Z.mul_div_le (fst u * P) (snd u) Hu).
+  assert (snd r * (fst u * P / snd u) * snd u <= fst r * P * snd u) by nia.
+  nia.
+Qed.
+
+Lemma rat_le_trans (a b c : rat) : 0 < snd a -> 0 < snd b -> 0 < snd c -> rat_le a b -> rat_le b c -> rat_le a c.
+Proof. unfold rat_le. intros. nia. Qed.
+
+Lemma gen_masks_spec : forall n c tr ms tr', dcfg_ok c -> Forall draw_ok tr ->
+  gen_masks n c tr = Ok (ms, tr') ->
+  length ms = n /\ Forall (shaped c) ms /\ Forall (fun m => popcount m <= cap c) ms /\ Forall draw_ok tr'.
+Proof.
+  induction n as [|n IH]; intros c tr ms tr' Hc Htr H; simpl in H.
+  - inversion H; subst. splits; auto.
+  - destruct tr as [|[lo hi u| | | |] tr]; try discriminate.
+    destruct (negb _) eqn:Hhi; try discriminate.
+    inversion Htr as [|? ? Hu Htr1]; subst. simpl in Hu. destruct Hu as (U1 & U2 & U3 & U4 & U5).
+    destruct (generate _ c (zero_mask c) 0 _ tr) as [[[m num] tr2]| |] eqn:Eg; try discriminate.
+    destruct (gen_masks n c tr2) as [[ms1 tr3]| |] eqn:Er; try discriminate.
+    inversion H; subst.
+    destruct (generate_spec _ _ _ _ _ _ _ _ _ Htr1 (popcount_zero_mask c) Eg) as (G1 & G2 & G3 & G4).
+    destruct (IH c tr2 ms1 tr' Hc G4 Er) as (K1 & K2 & K3 & K4).
+    destruct Hc as (C1 & C2 & C3 & C4 & C5 & C6 & C7).
+    splits; auto; simpl; try lia.
+    + constructor; auto. apply G3. apply well_shaped_zero_mask; assumption.
+    + constructor; auto.
+      assert (rat_le u (dRn c, dRd c)).
+      { unfold rat_leb in Hhi. simpl in Hhi. apply (rat_le_trans u hi (dRn c, dRd c)); simpl; auto.
+        unfold rat_le; simpl. lia. }
+      pose proof (rat_floor_mono u (dRn c, dRd c) (dP c) ltac:(unfold dP; nia) U3 C7 H0) as Hm.
+      simpl in Hm. unfold cap. fold (dP c).
+      assert (0 <= dRn c * dP c / dRd c) by (apply Z.div_pos; [unfold dP; nia | lia]).
+      lia.
+Qed.
+
+Lemma gen_masks_no_fuel : forall n c tr, gen_masks n c tr <> OutOfFuel.
+Proof.
+  induction n as [|n IH]; intros c tr; simpl; [discriminate|].
+  destruct tr as [|[lo hi u| | | |] tr]; try discriminate.
+  destruct (negb _); try discriminate.
+  destruct (generate _ c (zero_mask c) 0 _ tr) as [[[m num] tr2]| |] eqn:Eg; try discriminate.
+  - specialize (IH c tr2). destruct (gen_masks n c tr2) as [[? ?]| |]; try discriminate. congruence.
+  - exfalso. revert Eg. apply generate_no_fuel. lia.
+Qed.
+
+Lemma nonempty_zero_mask c : nonempty (zero_mask c) = false.
+Proof. unfold nonempty. rewrite popcount_zero_mask. reflexivity. Qed.
+
+(* the collator's output meets the DINO part of the property *)
+Lemma dino_collate_ok : forall c B tr ms, dcfg_ok c -> 0 <= B -> Forall draw_ok tr ->
+  dino_collate c B tr = Ok ms -> dino_ok c B ms.
+Proof.
+  intros c B tr ms Hc HB Htr H. unfold dino_collate in H.
+  destruct (gen_masks _ c tr) as [[ms1 tr1]| |] eqn:Eg; try discriminate.
+  destruct (gen_masks_spec _ _ _ _ _ Hc Htr Eg) as (G1 & G2 & G3 & G4).
+  destruct tr1 as [|[| | |p|] [|? ?]]; try discriminate.
+  destruct (Nat.eqb _ _) eqn:El; try discriminate. apply Nat.eqb_eq in El.
+  inversion H; subst ms. clear H.
+  inversion G4 as [|? ? Hp _]; subst. simpl in Hp.
+  set (all := ms1 ++ repeat (zero_mask c) (Z.to_nat (B * dV c - num_masked_samples c B))) in *.
+  assert (Hperm : Permutation (map (fun k => nth k all (zero_mask c)) p) all).
+  { rewrite <- (map_nth_seq all (zero_mask c)) at 2. apply Permutation_map. rewrite <- El. exact Hp. }
+  destruct Hc as (C1 & C2 & C3 & C4 & C5 & C6 & C7).
+  assert (Hnm : 0 <= num_masked_samples c B <= B * dV c).
+  { unfold num_masked_samples. split.
+    - apply Z.div_pos; nia.
+    - apply Z.div_le_upper_bound; nia. }
+  assert (Hall_s : Forall (shaped c) all).
+  { apply Forall_app. split; auto. apply Forall_repeat. apply well_shaped_zero_mask; assumption. }
+  assert (Hall_c : Forall (fun m => popcount m <= cap c) all).
+  { apply Forall_app. split; auto. apply Forall_repeat. rewrite popcount_zero_mask.
+    unfold cap. apply Z.div_pos; nia. }
+  unfold dino_ok. splits.
+  - unfold len. rewrite map_length, El. unfold all. rewrite app_length, repeat_length, G1. lia.
+  - eapply Permutation_Forall; [apply Permutation_sym; exact Hperm | exact Hall_s].
+  - unfold count_nonempty, len. rewrite (filter_perm_length _ _ _ Hperm).
+    unfold all. rewrite filter_app, (filter_repeat_false _ _ _ (nonempty_zero_mask c)), app_nil_r.
+    pose proof (filter_length_le nonempty ms1). unfold budget. unfold num_masked_samples in *. lia.
+  - eapply Permutation_Forall; [apply Permutation_sym; exact Hperm | exact Hall_c].
+Qed.
+
+Lemma dino_collate_no_fuel : forall c B tr, dino_collate c B tr <> OutOfFuel.
+Proof.
+  intros c B tr. unfold dino_collate.
+  pose proof (gen_masks_no_fuel (Z.to_nat (num_masked_samples c B)) c tr).
+  destruct (gen_masks _ c tr) as [[ms1 tr1]| |]; try congruence.
+  destruct tr1 as [|[| | |p|] [|? ?]]; try discriminate.
+  destruct (Nat.eqb _ _); discriminate.
+Qed.
